@@ -561,9 +561,15 @@ def _handle_fn_body(body: list[ast.stmt], ctx: Context) -> sympy.Expr | None:
                     # constants of the parent module
                     msg = f"Cannot translate the imported object {alias.name}"
                     raise NotImplementedError(msg)
-        elif isinstance(node, (ast.Expr, ast.Pass)):
-            # docstrings and bare expressions don't change any value
+        elif isinstance(node, ast.Pass) or (
+            isinstance(node, ast.Expr) and isinstance(node.value, ast.Constant)
+        ):
+            # docstrings and bare constants don't change any value
             _LOGGER.debug("Skipping node of type %s", type(node))
+        elif isinstance(node, ast.Expr):
+            # an expression statement can bind names (walrus) or call anything
+            msg = "Expression statements other than constants are not implemented"
+            raise NotImplementedError(msg)
         else:
             # augmented assignments, loops, ... change values: skipping them
             # silently would yield a wrong expression
